@@ -402,6 +402,28 @@ def materialise(desc) -> Structure:
                 s.add(name=out_name, canon=k, resn=r["name"], chain=ch["id"], seq=nums[i], icode=icodes[i],
                       xyz=r["atoms"][k], group=("chain", ci, i),
                       rec="HETATM" if ch.get("hetres") is not None and ch["hetres"] % n == i else "ATOM")  # fmt: skip
+        for ri_, xname in ch.get("extra", []):
+            # a heavy atom the residue's topology does not define (post-translational modification,
+            # refinement artefact): 1.45 A beyond the side-chain tip / CB / CA of that residue
+            ri_ = ri_ % n
+            r = res[ri_]
+            base_ = BASE.get(r["name"], r["name"])
+            known = set(RES[base_]["atoms"]) | set(RES[base_]["alts"]) | set(PATCH["CTERM"]["atoms"]) | set(PATCH["CTERM"]["alts"])
+            if xname in known or any(x["name"] == xname and x["group"] == ("chain", ci, ri_) for x in s.records):
+                continue
+            cand = [(t_, p_) for t_, p_ in TIP_ATOMS.get(base_, []) if t_ in r["atoms"] and p_ in r["atoms"]]
+            cand += [(t_, p_) for t_, p_ in (("CB", "CA"), ("CA", "N")) if t_ in r["atoms"] and p_ in r["atoms"]]
+            if not cand:
+                continue
+            t_, p_ = cand[0]
+            u = r["atoms"][t_] - r["atoms"][p_]
+            pos = r["atoms"][t_] + 1.45 * u / np.linalg.norm(u)
+            # insert after the last record of that residue
+            idx = max(k for k, x in enumerate(s.records) if x["group"] == ("chain", ci, ri_))
+            s.add(name=xname, canon=xname, resn=r["name"], chain=ch["id"], seq=nums[ri_], icode=icodes[ri_], xyz=pos,
+                  group=("chain", ci, ri_), extra=True)  # fmt: skip
+            s.records.insert(idx + 1, s.records.pop())
+            meta.setdefault("extra", []).append((ri_, xname))
         if ch.get("ter", True) and s.records:
             s.ters.add(len(s.records) - 1)
         s.chains.append(meta)
